@@ -653,6 +653,59 @@ func Contents(names []string) []Content {
 		})
 		c.Pointer, c.SharedPointer = true, true
 	}
+	// a pointer whose target is a container (array, array of arrays, object, map, tuple) holding, one or two levels down,
+	// another pointer that is expanded rather than named: into a shared parameter / response with a complex schema, or a
+	// single pointer to a simple property. When the container is named first (the caller sits deeper in the document), the
+	// inner pointer has moved with it.
+	for _, cont := range []string{"array", "arrayOfArray", "object", "map", "tuple"} {
+		for _, tgt := range []string{"parameters", "responses", "simpleProperty"} {
+			if tgt == "simpleProperty" && cont != "object" && cont != "arrayOfArray" && cont != "tuple" {
+				continue
+			}
+			if tgt == "responses" && (cont == "arrayOfArray" || cont == "object") {
+				continue
+			}
+			cont, tgt := cont, tgt
+			c := add("pointerToContainerOfPointer["+cont+","+tgt+"]", "pointer-container", func(b *BundleSpec, s int) J {
+				n := "pcp" + cont[:3] + tgt[:3]
+				var inner J
+				switch tgt {
+				case "parameters":
+					b.Add(RootFile, P(J{"name": "body", "in": "body", "schema": simpleObj("sharedInner")}, "parameters", n),
+						P(J{"operationId": "headPcp", "parameters": []any{J{"$ref": "#/parameters/" + n}}}, "paths", "/pcp", "head"), P(J{"description": "ok"}, "paths", "/pcp", "head", "responses", "200"))
+					inner = J{"$ref": "#/parameters/" + n + "/schema"}
+				case "responses":
+					b.Add(RootFile, P(J{"description": "shared", "schema": simpleObj("sharedInner")}, "responses", n), P(J{"$ref": "#/responses/" + n}, "paths", BasePath, "get", "responses", "412"))
+					inner = J{"$ref": "#/responses/" + n + "/schema"}
+				default:
+					b.Add(RootFile, P(J{"type": "object", "properties": J{"name": J{"type": "string", "description": "simple inner"}}}, "definitions", n+"Src"))
+					b.use(n + "Src")
+					inner = J{"$ref": "#/definitions/" + n + "Src/properties/name"}
+				}
+				var container J
+				switch cont {
+				case "array":
+					container = J{"type": "array", "items": inner}
+				case "arrayOfArray":
+					container = J{"type": "array", "items": J{"type": "array", "items": inner}}
+				case "object":
+					container = J{"type": "object", "properties": J{"x": inner, "y": J{"type": "string"}}}
+				case "map":
+					container = J{"type": "object", "additionalProperties": inner}
+				default:
+					container = J{"type": "array", "items": []any{inner, J{"type": "string"}}}
+				}
+				b.Add(RootFile, P(J{"type": "object", "properties": J{"q": container}}, "definitions", n+"Holder"))
+				b.use(n + "Holder")
+				b.HasPointer = true
+				if tgt != "simpleProperty" {
+					b.HasSharedPointer = true
+				}
+				return J{"$ref": "#/definitions/" + n + "Holder/properties/q"}
+			})
+			c.Pointer, c.SharedPointer = true, tgt != "simpleProperty"
+		}
+	}
 	for _, kind := range []string{"parameters", "responses"} {
 		for _, cx := range []string{"simple", "complex"} {
 			kind, cx := kind, cx
@@ -886,6 +939,19 @@ func OtherFeatures(names []string) []Feature {
 		b.use("animal")
 		b.use("animalOwnerAddress")
 		b.use("AnimalOwnerAddressGeo")
+	})
+	add("threeSchemasOneGeneratedNameWithPendingImport", "collide-names", func(b *BundleSpec, s int) {
+		// a definition and two pointer targets compete for one generated name (name, nameOAIGen, nameOAIGen1); the third one
+		// holds the $ref to a colliding ($ref-free) import which is itself pending conflict resolution
+		b.Add(RootFile, P(simpleObj("rootAddress"), "definitions", "address"), P(simpleObj("legacy"), "definitions", "OrderItemDetail"),
+			P(J{"type": "object", "properties": J{"item_detail": simpleObj("sku")}}, "definitions", "order"),
+			P(J{"type": "object", "properties": J{"detail": J{"type": "object", "properties": J{"shipTo": J{"$ref": AuxA + "#/definitions/address"}}}}}, "definitions", "order_item"),
+			P(J{"type": "object", "properties": J{"first": J{"$ref": "#/definitions/order/properties/item_detail"}}}, "definitions", "basket"),
+			P(J{"type": "object", "properties": J{"second": J{"$ref": "#/definitions/order_item/properties/detail"}}}, "definitions", "cart"))
+		b.Add(AuxA, P(simpleObj("auxAddress"), "definitions", "address"))
+		for _, n := range []string{"address", "OrderItemDetail", "order", "order_item", "basket", "cart"} {
+			b.use(n)
+		}
 	})
 	add("twoInlineSameGeneratedName", "collide-names", func(b *BundleSpec, s int) {
 		b.Add(RootFile, P(J{"type": "object", "properties": J{"home_address": simpleObj("inl1")}}, "definitions", "member"),
